@@ -100,11 +100,26 @@ def ts_files(sb, rel):
     return {k: v.decode("utf-8", "replace") for k, v in sb.snapshot(rel).items() if v is not None and k.endswith(".ts")}
 
 
+SHAPES = {
+    # label -> list of (table label, force kind); the LAST step's table is the one that must show
+    "AB": [("A", None), ("B", None)],
+    "A,Bf,A": [("A", None), ("B", "flag"), ("A", None)],          # return to an earlier table after a forced run
+    "A,Bc,A": [("A", None), ("B", "config"), ("A", None)],        # forced through "force": true of the configuration
+    "N,Bf,N": [("N", None), ("B", "flag"), ("N", None)],          # no table / forced table / no table again
+    "A,B,Af,B": [("A", None), ("B", None), ("A", "flag"), ("B", None)],
+    "Af,B,A": [("A", "flag"), ("B", None), ("A", None)],
+    "A,Bf,Bc,A": [("A", None), ("B", "flag"), ("B", "config"), ("A", None)],
+}
+
+
 def run_history(case):
-    """four generations with the real binary; returns the observation dict"""
+    """the history of the case with the real binary, then a fresh forced generation under the final table and one
+    without table; returns the observation dict"""
     n, _ = NAMES[case["name"]]
     src, site, tree, event = route_project(case["route"], n)
     A, B = tables(case["edit"], case["name"])
+    tabs = {"A": A, "B": B, "N": None}
+    shape = SHAPES[case.get("shape", "AB")]
     mode, source = case["mode"], case["source"]
     obs = {"steps": []}
     with vlib.Sandbox("c18h") as sb:
@@ -115,31 +130,37 @@ def run_history(case):
                 tg = {"projectPath": "./src-tauri", "outputPath": "./" + out, "validationLibrary": mode}
                 if table is not None:
                     tg["typeMappings"] = table
+                if force == "config":
+                    tg["force"] = True
                 sb.write("proj/tauri.conf.json", json.dumps({"productName": "x", "plugins": {"typegen": tg}}, indent=1))
                 args, cwd = ["generate"], sb.path("proj")
             else:
                 cfg = {"project_path": sb.path("proj/src-tauri"), "output_path": sb.path("proj", out), "validation_library": mode}
                 if table is not None:
                     cfg["type_mappings"] = table
+                if force == "config":
+                    cfg["force"] = True
                 sb.write("cfg.json", json.dumps(cfg))
                 args, cwd = ["generate", "-c", sb.path("cfg.json")], sb.root
-            if force:
+            if force == "flag":
                 args.append("--force")
             rc, log = sb.cli(args, cwd=cwd)
             obs["steps"].append({"out": out, "table": table, "force": force, "exit": rc,
                                  "decision": "up to date" if "up to date" in log else ("generated" if rc == 0 else log[-300:])})
             return ts_files(sb, os.path.join("proj", out))
 
-        gen(A, "gen", False)
-        after = gen(B, "gen", False)
-        fresh = gen(B, "fresh", True)
-        plain = gen(None, "plain", True)
+        after = {}
+        for label, force in shape:
+            after = gen(tabs[label], "gen", force)
+        final = tabs[shape[-1][0]]
+        fresh = gen(final, "fresh", "flag")
+        plain = gen(None, "plain", "flag")
     obs["stale_files"] = sorted(k for k in set(after) | set(fresh) if after.get(k) != fresh.get(k))
     obs["site"] = site
     obs["with_table"] = site_text(after, site, mode, event)
     obs["fresh_with_table"] = site_text(fresh, site, mode, event)
     obs["without_table"] = site_text(plain, site, mode, event)
-    return obs, tree, B
+    return obs, tree, (final or {})
 
 
 SITES = ["param", "return", "field", "channel", "event"]
@@ -190,4 +211,100 @@ def cases_for(tier, rng):
                         c = {"route": route, "edit": "retarget", "source": s, "mode": m, "name": k}
                         if c not in out:
                             out.append(c)
+    # histories of 3-4 runs mixing forced (flag / configuration) and unforced runs and returning to an earlier table
+    j = 0
+    for shape in [k for k in SHAPES if k != "AB"]:
+        for route in ROUTES:
+            pool = plain if route.startswith("event") else allk
+            variants = [(s, m, k) for s in SOURCES for m in MODES for k in pool[:3]] if tier == "thorough" else \
+                [(SOURCES[(j + q) % 2], MODES[((j + q) // 2) % 2], pool[(j + q) % len(pool)]) for q in range(2)]
+            j += 1
+            for s, m, k in variants:
+                out.append({"route": route, "edit": "retarget", "source": s, "mode": m, "name": k, "shape": shape})
     return out
+
+
+# ---------------------------------------------------------------------------------------------------------------
+# "nothing else changes", judged on whole projects: several events in a particular order (file order, then source
+# order), exactly one of them with a directly mapped payload (first / middle / last), the others with payload structs
+# that are reachable only through events (with nested field types), plus a command with its own struct. The files
+# generated with the table must be the files generated without it in which the mapped name is replaced by its target.
+
+def frame_project(nev, pos, split_files):
+    """sources {file: text}; event k has payload struct Ev<k> { items: Vec<Leaf<k>> } except event `pos`: payload Uuid"""
+    items, evs = [], []
+    for k in range(nev):
+        if k == pos:
+            evs.append("    let id%d: Uuid = todo!();\n    app.emit(\"ev-%d\", id%d).unwrap();\n" % (k, k, k))
+        else:
+            items.append("#[derive(Serialize, Deserialize)]\npub struct Leaf%d { pub v: i32 }\n\n#[derive(Serialize, Deserialize)]\npub struct Ev%d { pub items: Vec<Leaf%d>, pub tag: Option<String> }\n\n" % (k, k, k))
+            evs.append("    let p%d: Ev%d = todo!();\n    app.emit(\"ev-%d\", p%d).unwrap();\n" % (k, k, k, k))
+    cmd = "#[derive(Serialize, Deserialize)]\npub struct Arg { pub n: u8 }\n\n#[tauri::command]\npub fn c0(p0: Arg) -> String { todo!() }\n\n"
+    if not split_files:
+        body = "#[tauri::command]\npub fn fire(app: tauri::AppHandle) {\n" + "".join(evs) + "}\n"
+        return {"lib.rs": HEADER + "".join(items) + cmd + body}
+    files = {"lib.rs": HEADER + "".join(items) + cmd}
+    for k, e in enumerate(evs):        # one emitting command per file a0.rs, a1.rs, ... (file order = event order)
+        files["a%d.rs" % k] = HEADER + "use crate::*;\n\n#[tauri::command]\npub fn fire%d(app: tauri::AppHandle) {\n%s}\n" % (k, e)
+    return files
+
+
+def run_frame(case):
+    target = case["target"]
+    obs = {}
+    with vlib.Sandbox("c18f") as sb:
+        for f, text in frame_project(case["events"], case["pos"], case["split_files"]).items():
+            sb.write("proj/src-tauri/src/" + f, text)
+
+        def gen(table, out):
+            if case["source"] == "tauri":
+                tg = {"projectPath": "./src-tauri", "outputPath": "./" + out, "validationLibrary": case["mode"]}
+                if table is not None:
+                    tg["typeMappings"] = table
+                sb.write("proj/tauri.conf.json", json.dumps({"productName": "x", "plugins": {"typegen": tg}}))
+                rc, log = sb.cli(["generate", "--force"], cwd=sb.path("proj"))
+            else:
+                cfg = {"project_path": sb.path("proj/src-tauri"), "output_path": sb.path("proj", out), "validation_library": case["mode"]}
+                if table is not None:
+                    cfg["type_mappings"] = table
+                sb.write("cfg.json", json.dumps(cfg))
+                rc, log = sb.cli(["generate", "-c", sb.path("cfg.json"), "--force"])
+            return rc, ts_files(sb, os.path.join("proj", out))
+
+        rc1, with_t = gen({"Uuid": target, "Unrelated": "number"}, "with")
+        rc0, without = gen(None, "without")
+    obs["exit"] = [rc1, rc0]
+    diffs = {}
+    for f in sorted(set(with_t) | set(without)):
+        exp = without.get(f)
+        if exp is not None:
+            exp = re.sub(r"\btypes\.Uuid\b|\bUuid\b", target, exp)
+        if with_t.get(f) != exp:
+            a, b = (with_t.get(f) or "").splitlines(), (exp or "").splitlines()
+            diffs[f] = {"only_with_table": [x for x in a if x not in b][:6], "only_expected": [x for x in b if x not in a][:6]}
+    obs["files_that_differ_beyond_the_mapped_name"] = diffs
+    obs["declared_with_table"] = sorted(set(re.findall(r"export (?:interface|type|const) (\w+)", with_t.get("types.ts", ""))))
+    obs["declared_without_table"] = sorted(set(re.findall(r"export (?:interface|type|const) (\w+)", without.get("types.ts", ""))))
+    return obs
+
+
+def frame_cases(tier):
+    out = []
+    i = 0
+    for nev in (2, 3, 4):
+        for pos in range(nev):
+            for split in (False, True):
+                combos = [(s, m) for s in SOURCES for m in MODES] if tier == "thorough" else [(SOURCES[i % 2], MODES[(i // 2) % 2]), (SOURCES[(i + 1) % 2], MODES[((i + 2) // 2) % 2])]
+                i += 1
+                for s, m in combos:
+                    out.append({"events": nev, "pos": pos, "split_files": split, "source": s, "mode": m,
+                                "target": ["string", "number", "boolean"][(nev + pos) % 3]})
+    return out
+
+
+def evaluate_frame(cases):
+    outs = []
+    for c, obs in zip(cases, vlib.pmap(run_frame, cases)):
+        ok = obs["exit"] == [0, 0] and not obs["files_that_differ_beyond_the_mapped_name"]
+        outs.append(Outcome(dict(c, what="project-frame"), True, ok, detail=obs))
+    return outs
